@@ -597,7 +597,7 @@ func GenC06(seed uint64) *Plan {
 	sp.InitLen = g.between(10, 30)
 	head := sp.InitLen - 1
 	var start, stop uint64
-	switch g.R.IntN(6) {
+	switch g.R.IntN(7) {
 	case 0: // begin at head
 		start = 0
 	case 1: // before head
@@ -606,6 +606,8 @@ func GenC06(seed uint64) *Plan {
 		start = uint64(head)
 	case 3: // just after head (start-1 == head exists)
 		start = uint64(head + 1)
+	case 4: // beyond the head: nothing may be written until the chain gets there
+		start = uint64(head + g.between(2, 6))
 	default:
 		start = uint64(g.between(1, head))
 	}
@@ -624,6 +626,9 @@ func GenC06(seed uint64) *Plan {
 		if start > 0 {
 			stop = start + uint64(g.between(0, 2*sp.Batch))
 		}
+	}
+	if start > 0 && stop > 0 && stop < start {
+		stop = start
 	}
 	if start == 0 && stop > 0 && stop < uint64(head) {
 		stop = uint64(head + g.between(0, 6))
